@@ -180,6 +180,36 @@ def run(chk):
         if "err" in p:
             chk.violation("oracle", "well-formed probing(%r) was refused: %s" % (s, p),
                           {"call": "probing", "string": s, "raised": p})
+    # oracle (5) + correspondence: meta-variable names — exactly the documented ones and the loop markers
+    from ptera.selector import _valid_hashvars
+    names = set(_valid_hashvars) | {"#loop_i", "#endloop_i", "#loop_", "#endloop_", "#loop", "#endloop", "#", "#x"}
+    for hv in _valid_hashvars:
+        for sfx in ("s", "2", "_", "ed", ".real", "x"):
+            names.add(hv + sfx)
+        names.add(hv[:-1])
+        names.add(hv.upper())
+        names.add("#" + hv)
+    for _ in range(60 if chk.tier == "quick" else 600):
+        names.add("#" + "".join(rng.choice("abelnortuvxy_") for _ in range(rng.randrange(1, 7))))
+    names = sorted(names)
+    model_hv = drv.ask_many([{"op": "hashvar", "s": n} for n in names])
+    n_hv_bad = 0
+    for n, m in zip(names, model_hv):
+        ok_doc = n in _valid_hashvars or n.startswith("#loop_") or n.startswith("#endloop_")
+        res = classify_probe("f > %s" % n, env)
+        accepted = "ok" in res
+        chk.count(("hashvar", n))
+        if accepted != m["accepted"]:
+            n_hv_bad += 1
+            chk.violation("correspondence", "meta-variable %r: model says accepted=%s, implementation %s" % (
+                n, m["accepted"], res), {"call": "probing", "string": "f > %s" % n, "model": m, "impl": res})
+        if accepted and not ok_doc:
+            chk.violation("oracle", "probing('f > %s') is accepted although %s is not a documented meta-variable "
+                          "(it would silently never match)" % (n, n), {"call": "probing", "string": "f > %s" % n})
+        elif not accepted and (ok_doc or res.get("err") not in REFUSALS):
+            chk.violation("oracle", "probing('f > %s') -> %s" % (n, res), {"call": "probing", "string": "f > %s" % n,
+                                                                           "raised": res})
+    chk.cov["correspondence"]["hashvar_names"] = {"names": len(names), "disagreements": n_hv_bad}
     chk.cov["oracle"] = {"parse": len(strs), "select": n_sel, "probing": n_probe,
                          "defective": len(DEFECTIVE), "wellformed": len(WELLFORMED)}
     chk.sample({"string": strs[n_enum // 2], "parse": selcorr.impl_parse(strs[n_enum // 2])})
